@@ -5,6 +5,7 @@
    See manifest.d/C03.json for what is full / partial / refuted. *)
 From Hio Require Import Base.Prelude Base.AMap Base.Time Model.Sched Proofs.SchedFrame Proofs.SchedLife Proofs.SchedTop
   Proofs.SchedCycleTick Proofs.SchedCycleDue Proofs.SchedCycleRef Proofs.SchedCycleStop Proofs.SchedCycleTree.
+From Hio Require Import Proofs.SchedAdo Proofs.SchedHist Proofs.SchedCycleHist.
 From Hio Require Proofs.SchedDeque Proofs.SchedDequeSortB Proofs.SchedDequeEpos Proofs.SchedDequePass Proofs.SchedCycleOnce.
 
 (* ------------------------------------------------------------------ *)
@@ -402,6 +403,80 @@ Proof.
 Qed.
 
 (* ------------------------------------------------------------------ *)
+(* 8. HISTORIES (Proofs/SchedHist.v; vocabulary as in Props/C05.v section 5): the theorems
+   above for every run r that follows ANY history h (s = run_hist ... h), sync or async,
+   RAgain (same Doist, limit / tyme possibly new) or RFresh (new Doist). *)
+
+(* the tick grid of a rerun starts at ITS start tyme rr_tyme s r: the final tyme is a grid
+   point, the events the rerun added are blocks n, ..., 0 of that grid (so their grid index
+   never decreases), the earlier trace is untouched.  FULL, every program. *)
+Theorem C03_tick_histories :
+  forall (T : Type) (TT : Time T) (cycles fuel : nat) (asyn : bool) (p : prog T) (h : list rerun) (r : rerun),
+    let tk := p_tock p in let s := run_hist cycles fuel asyn p h in
+    let fin := run_hist cycles fuel asyn p (h ++ [r]) in
+    exists n, tyme fin = grid (rr_tyme s r) tk n /\
+              exists l, trace fin = l ++ trace s /\ on_grid (rr_tyme s r) tk n l.
+Proof.
+  intros T TT cycles fuel asyn p h r. cbv zeta. rewrite run_hist_snoc, rerun_step_tail.
+  destruct (tail_grid (p_tock p) fuel cycles (rr_start (run_hist cycles fuel asyn p h) r)
+              (rr_doers (run_hist cycles fuel asyn p h) r) (rr_limit r)) as (n & Ty & l & E & G).
+  rewrite rr_start_tyme in *. exists n. split; [exact Ty|]. exists l. split; [|exact G].
+  rewrite E. destruct r as [l0 [t|]|l0 t0 ds]; reflexivity.
+Qed.
+Print Assumptions C03_tick_histories.
+
+(* cycle advance and pass tyme are statements about cycle_loop / recur_pass from ANY state
+   (C03_cycle_advance, C03_pass_tyme), hence hold in every run of a history as they stand;
+   with the stop rule (C05_stop_rule_histories): a rerun that stops after cycle n ends at
+   rr_tyme + (n+1) tocks. *)
+
+(* static flat reruns.  Extra precondition, stated in full (flat_start): in the start
+   state of the rerun the root deque is empty (true after every run that ended by exit()),
+   the doers it enters are pairwise distinct, not 0, effect-free fault-free leaves, and
+   ALL STARTABLE - never started or exited; a doer left suspended by an earlier run that
+   ran out of budget would be skipped.  Then the rerun is exactly the reference cycle model
+   started at the rerun's tyme: the recur steps it ADDS, its final tyme and Doist.done. *)
+Theorem C03_flat_refines_histories :
+  forall (T : Type) (TT : Time T) (cycles fuel : nat) (asyn : bool) (p : prog T) (h : list rerun) (r : rerun),
+    let tk := p_tock p in let s := run_hist cycles fuel asyn p h in
+    let fin := run_hist cycles fuel asyn p (h ++ [r]) in
+    flat_start (p_defs p) (rr_start s r) (rr_doers s r) -> oof fin = false ->
+    exists blocks (dn : bool),
+      ref_cycles (p_defs p) tk (lim_of (rr_limit r)) (stop_of (rr_tyme s r) (rr_limit r)) cycles (rr_tyme s r)
+                 (ref_enter (p_defs p) (rr_tyme s r) (rr_doers s r)) [] = Some (blocks, tyme fin, dn) /\
+      recs fin = rev (concat blocks) ++ recs s /\
+      get_done fin 0%N = Some dn.
+Proof.
+  intros T TT cycles fuel asyn p h r. cbv zeta. rewrite run_hist_snoc, rerun_step_tail. intros Fs O.
+  destruct (tail_ref (p_tock p) (p_defs p) cycles fuel _ _ (rr_limit r) Fs O) as (res & dn & R & Rc & Dn).
+  rewrite rr_start_tyme in R. exists res, dn. split; [exact R|]. split; [|exact Dn].
+  rewrite Rc. destruct r as [l0 [t|]|l0 t0 ds]; reflexivity.
+Qed.
+Print Assumptions C03_flat_refines_histories.
+
+(* no drift in a rerun (exact time): as C03_no_drift_run, with start = the rerun's tyme *)
+Theorem C03_no_drift_histories :
+  forall (cycles fuel : nat) (asyn : bool) (p : prog Z) (h : list rerun) (r : rerun) (i : id) (t : Z) (n : nat),
+    let tk := p_tock p in let s := run_hist cycles fuel asyn p h in
+    let fin := run_hist cycles fuel asyn p (h ++ [r]) in
+    flat_start (p_defs p) (rr_start s r) (rr_doers s r) -> oof fin = false ->
+    In i (rr_doers s r) -> (exists t0, out_at (p_defs p) i 0 = OYield t0) ->
+    t <> 0%Z -> (forall pc, (1 <= pc < n)%nat -> out_at (p_defs p) i pc = OYield (Some t)) ->
+    exists blocks,
+      recs fin = rev (concat blocks) ++ recs s /\
+      drift_ok tk (rr_tyme s r) i t n (rr_tyme s r) 0 blocks.
+Proof.
+  intros cycles fuel asyn p h r i t n. cbv zeta. intros Fs O I E0 Nz C.
+  destruct (C03_flat_refines_histories Z ZTime cycles fuel asyn p h r Fs O) as (res & dn & R & S & _).
+  assert (Jq : J (rr_tyme (run_hist cycles fuel asyn p h) r) i t n
+                 (ref_enter (p_defs p) (rr_tyme (run_hist cycles fuel asyn p h) r) (rr_doers (run_hist cycles fuel asyn p h) r)) 0).
+  { apply J_enter; [apply Fs|exact I|exact E0]. }
+  destruct (ref_cycles_drift (p_defs p) (p_tock p) _ i t n Nz C _ _ _ _ _ _ _ _ _ 0%nat R Jq) as (news & -> & Dr).
+  exists news. split; [exact S|exact Dr].
+Qed.
+Print Assumptions C03_no_drift_histories.
+
+(* ------------------------------------------------------------------ *)
 (* Non-vacuity of the hypotheses *)
 Definition ex_flat : prog Z :=
   let R := {| f_es := []; f_out := OReturn RTrue |} in
@@ -444,6 +519,35 @@ Example C03_example_any :
   let s := do_run 10 100 ex_any in
   oof s = false /\ tyme s = 1%Z /\ map e_tyme (rev (trace s)) = repeat 0%Z 10 ++ repeat 1%Z 15.
 Proof. vm_compute. repeat split. Qed.
+
+(* ex_flat run once (ends at 22, all doers complete), then again on the same Doist with limit 3
+   and the tyme reset to 100, then under a new Doist at tyme 50 over doers [2; 1] *)
+Definition ex_hist3 : list (@rerun Z) := [RAgain (Some 3%Z) (Some 100%Z); RFresh None 50%Z [2; 1]%N].
+Example C03_example_histories :
+  let p := ex_flat in
+  let s1 := run_hist 50 100 false p [RAgain (Some 3%Z) (Some 100%Z)] in
+  let r2 := RFresh None 50%Z [2; 1]%N in
+  oof (run_hist 50 100 false p ex_hist3) = false /\
+  tyme s1 = 104%Z /\ rr_tyme s1 r2 = 50%Z /\
+  (* flat_start of the second rerun, decidable parts *)
+  deeds (get_sched (rr_start s1 r2) 0%N) = [] /\ get_done (rr_start s1 r2) 0%N = Some false /\
+  forallb (fun i => startable (rr_start s1 r2) i && negb (N.eqb i 0) && quiet_def (get (p_defs p) i)) (rr_doers s1 r2) = true /\
+  (* what it adds: doer 2 first (the new enter order), doer 1 with its tock 3 from 50: due 50, 53, 56, 59 -> 50, 54, 56, 60 *)
+  firstn 8 (rev (recs (run_hist 50 100 false p ex_hist3))) =
+    [(1%N, 10%Z); (2%N, 10%Z); (2%N, 12%Z); (1%N, 14%Z); (2%N, 14%Z); (1%N, 16%Z); (1%N, 20%Z); (2%N, 20%Z)] /\
+  skipn 11 (rev (recs (run_hist 50 100 false p ex_hist3))) =
+    [(2%N, 50%Z); (1%N, 50%Z); (2%N, 52%Z); (2%N, 54%Z); (1%N, 54%Z); (1%N, 56%Z); (2%N, 60%Z); (1%N, 60%Z)] /\
+  tyme (run_hist 50 100 false p ex_hist3) = 62%Z.
+Proof. vm_compute. repeat split. Qed.
+
+Example C03_example_histories_start :
+  let p := ex_flat in let s1 := run_hist 50 100 false p [RAgain (Some 3%Z) (Some 100%Z)] in
+  flat_start (p_defs p) (rr_start s1 (RFresh None 50%Z [2; 1]%N)) [2; 1]%N.
+Proof.
+  cbv zeta. split; [reflexivity|]. split; [vm_compute; reflexivity|]. split; [vm_compute; reflexivity|].
+  split; [repeat constructor; cbn; intuition discriminate|].
+  intros i [<-|[<-|[]]]; vm_compute; repeat split; discriminate.
+Qed.
 
 (* The lifecycle core C03 relies on (kept from the interim version). *)
 Theorem C03_lifecycles_core :
